@@ -4,6 +4,7 @@ import petl.config as cfg
 from hypothesis import strategies as st
 
 from pv import catalog, catgen, codec, gen
+from pv import scale
 from pv.core import Sub, Fail, exc_fail
 from pv.probes import Counting, Boom, BOOM_KINDS
 from pv.ref import base as R
@@ -104,6 +105,15 @@ def _run(e, S, passes=2, **kw):
 
 def check_variant(case, ctx):
     e = catalog.get(case["entry"])
+    b = scale.derive(case, odds=20, sizes=[300, 1100, 2100, 2600], wide=False) if (not e.cells and e.n <= 2) else None
+    if b and all(len(t) > 1 for t in case["sources"]):
+        # at scale: the first source blown up (a second one kept to a few rows), chunk sizes from "a hundred chunk files" to
+        # "one chunk of more than 1000 rows"
+        nb = b["rows"]
+        src = [scale.apply(case["sources"][0], b)] + [[list(r) for r in t[:5]] for t in case["sources"][1:]]
+        bs_ = (max(1, nb // 100), 1001, 1500, max(1, nb // 2), 1001, max(1, nb // 70))[(nb + len(case["sources"][0])) % 6]
+        case = dict(case, sources=src, buffersize=bs_)
+        scale.label(ctx, b)
     variant, bs = case["variant"], case["buffersize"]
     S0 = codec.snapshot(case["sources"])
     if variant == "presorted":
